@@ -24,6 +24,10 @@ structure State where
   lh : LH := {}
   /-- `lighthouse.calculated_remotes`: overlay prefix -> (mask prefix, port) list -/
   crTbl : List (Prefix × List (Prefix × Nat)) := []
+  /-- the configuration file as last (re)loaded -/
+  raw : RawCfg := {}
+  /-- remote allow lists that were in force earlier in this case (before reloads) -/
+  pastRals : List AllowList.Remote := []
 
 def kvGet (kvs : List (String × String)) (k : String) : String := ((kvs.find? (·.1 == k)).map (·.2)).getD "-"
 
@@ -153,7 +157,8 @@ def msgVerdict (c : Cfg) (from_ : List Addr) (typ : Nat) (impl : String) : Strin
         let u := a.addr.unmap
         if inMyNets c u || !c.ral.allow v u then
           some (if a.addr.is4in6 then "addr-mapped-v6-entry-bypasses-filter"
-                else if inMyNets c u then "addr-punch-inside-overlay" else "addr-punch-denied")
+                else if inMyNets c u then "addr-punch-inside-overlay"
+                else if AllowList.allow c.ral.allowList u then "addr-punch-denied-by-peer-range" else "addr-punch-denied")
         else none
       | _, _ => some "addr-punch-unparsable"
     | _ => some "addr-punch-unparsable"
@@ -183,7 +188,8 @@ def step (s : State) (args : List String) (impl : String) : State × Out :=
                            ral := { allowList := al, inside := inside },
                            initV := if kvGet kvs "v" == "1" then 1 else 2, staticList := statics }
         let lh := st.foldl (fun lh e => addStatic cfg lh e.1 e.2) ({} : LH)
-        ({ cfg := some cfg, lh := lh, crTbl := crs },
+        let raw : RawCfg := { hosts := lhs, statics := st, g := g, ranges := rs, amLighthouse := cfg.amLighthouse }
+        ({ cfg := some cfg, lh := lh, crTbl := crs, raw := raw },
          { model := "ok", verdict := expect "lh-load" impl "ok",
            tag := if !rs.isEmpty then "reset:ranges" else if !crs.isEmpty then "reset:calc" else "triv:reset" })
       | _, _ => ({}, { model := "err", tag := "triv:reset-err" })
@@ -298,7 +304,11 @@ def step (s : State) (args : List String) (impl : String) : State × Out :=
                       if a.addr.is4in6 then "addr-mapped-v6-entry-bypasses-filter" else base
                     if rl.badRemotes.contains u then some (cls "addr-candidate-blocked")
                     else if inMyNets c u.addr then some (cls "addr-candidate-inside-overlay")
-                    else if !AllowList.allow c.ral.allowList u.addr then some (cls "addr-candidate-denied")
+                    else if !AllowList.allow c.ral.allowList u.addr then
+                      -- recorded under a remote allow list that a reload has since replaced: the code does not
+                      -- re-filter the cache (known finding)
+                      (if s.pastRals.any (fun r => AllowList.allow r.allowList u.addr) then some "addr-stale-after-allowlist-reload"
+                       else some (cls "addr-candidate-denied"))
                     else none
                   match l.filterMap badOne with
                   | [] => "ok"
@@ -306,6 +316,25 @@ def step (s : State) (args : List String) (impl : String) : State × Out :=
               let out := showList showAP rl'.addrs
               let s2 : State := { s with lh := s.lh.setList id rl' }
               (s2, { model := out, verdict := verdict, tag := if out == "-" then "addrs:empty" else "addrs" })
+      | "reload", toks =>
+        let (kvToks, gToks) := (toks.takeWhile (· != "G"), (toks.dropWhile (· != "G")).drop 1)
+        let kvs := kvToks.filterMap fun t => match t.splitOn "=" with | [k, v] => some (k, v) | _ => none
+        match parseList parseAddr (kvGet kvs "lhs"), parseStatics (kvGet kvs "st"), parseG gToks, parseCalc (kvGet kvs "cr") with
+        | some lhs, some st, some (g, rs), some crs =>
+          let new : RawCfg := { hosts := lhs, statics := st, g := g, ranges := rs, amLighthouse := kvGet kvs "lh" == "1" }
+          let n' := reloadNode { cfg := c, lh := s.lh, raw := s.raw } new
+          let allowChanged := decide (new.g ≠ s.raw.g ∨ new.ranges ≠ s.raw.ranges)
+          let m := "lhs=" ++ showList showAddr n'.cfg.lighthouses
+          -- C35: the list in force is the configured one (when every host has a static entry), whatever the old list was
+          let valid := lhs.all (fun h => memB (staticsAfter { cfg := c, lh := s.lh, raw := s.raw } new) h)
+          let hostsChanged := decide (lhs ≠ s.raw.hosts)
+          let want := if hostsChanged && valid then "lhs=" ++ showList showAddr lhs else "lhs=" ++ showList showAddr c.lighthouses
+          ({ s with cfg := some n'.cfg, lh := n'.lh, raw := n'.raw, crTbl := crs,
+                    pastRals := if allowChanged then c.ral :: s.pastRals else s.pastRals },
+           { model := m, verdict := expect "lh-reload-lighthouses" impl want,
+             tag := if hostsChanged then (if valid then (if lhs.all (fun h => memB c.lighthouses h) then "reload:hosts-removed-or-permuted" else "reload:hosts-added") else "reload:hosts-refused")
+                    else if allowChanged then "reload:allowlist" else "reload:other" })
+        | _, _, _, _ => (s, badOp)
       | "roam", [vs, cur, via, rel] =>
         match parseList parseAddr vs, (if cur == "-" then some none else (parseAP cur).map some), parseAP via with
         | some vs, some cur, some via =>
